@@ -14,9 +14,13 @@ def known_cases(prop):
     from .core import ROOT
 
     out = []
-    for p in sorted(glob.glob(os.path.join(ROOT, "replays", "known",
-                                           f"{prop}-*.json"))):
-        out.append(json.load(open(p))["case"])
+    for sub in ("known", "regress"):
+        for p in sorted(glob.glob(os.path.join(ROOT, "replays", sub,
+                                               f"{prop}-*.json"))):
+            c = json.load(open(p))["case"]
+            c = {k: v for k, v in c.items() if k != "extra"}
+            c["labels"] = list(c.get("labels", [])) + [f"{sub}-case"]
+            out.append(c)
     return out
 
 
